@@ -152,11 +152,11 @@ def check(ctx) -> Result:
                 read.add(n.attr)
     loops = [l for l in walk_no_nested(srs.node) if isinstance(l, ast.For) and isinstance(l.iter, (ast.List, ast.Tuple))]
     seeded = {x.attr for l in loops for x in ast.walk(l.iter) if isinstance(x, ast.Attribute) and src(x.value) == "self"}
-    res.add(bool(read) and read <= seeded, "J1-every-distribution-seeded", "ErrorModel._set_random_seed", srs.site(), srs.qualname, f"all drawn-from distributions {sorted(read)} are seeded",
+    res.frozen(bool(read) and read <= seeded, "J1-every-distribution-seeded", "ErrorModel._set_random_seed", srs.site(), srs.qualname, f"all drawn-from distributions {sorted(read)} are seeded",
             f"distribution field(s) {sorted(read - seeded)} are drawn from by get_* but never seeded", construct=str(sorted(seeded)))
     t = src(srs.node)
     okd = "process_random_seed(r_seed)" in t and "default_rng(seed)" in t and "prop.set_random_seed(seed)" in t and "rng.integers(" in t
-    res.add(okd, "J1-every-distribution-seeded", "ErrorModel._set_random_seed:derivation", srs.site(), srs.qualname, "per-distribution seeds come from one generator seeded with the call's seed", "per-distribution seeds no longer derive from the call's seed", construct="derivation")
+    res.frozen(okd, "J1-every-distribution-seeded", "ErrorModel._set_random_seed:derivation", srs.site(), srs.qualname, "per-distribution seeds come from one generator seeded with the call's seed", "per-distribution seeds no longer derive from the call's seed", construct="derivation")
     # ---- Reck.map
     rk = ctx.ix.module(RECK)
     R = rk.classes.get("Reck")
@@ -215,9 +215,9 @@ def check(ctx) -> Result:
             "heralds of the original are not copied pairwise onto the mapped circuit", construct=src(hl[0])[:200] if hl else "")
     # unitary taken from the circuit and flipped consistently with the mode flip of the layout
     fl = [a for a in walk_no_nested(mp.node) if isinstance(a, ast.Assign) and "np.flip(circuit.U" in src(a.value)]
-    res.add(bool(fl) and "axis=(0, 1)" in src(fl[0].value), "A-mode-flip-consistent", "Reck.map", mp.site(), mp.qualname, "unitary flipped on both axes before decomposition", "the unitary is no longer flipped on both axes (layout uses reversed mode numbering)", construct=src(fl[0]) if fl else "")
+    res.frozen(bool(fl) and "axis=(0, 1)" in src(fl[0].value), "A-mode-flip-consistent", "Reck.map", mp.site(), mp.qualname, "unitary flipped on both axes before decomposition", "the unitary is no longer flipped on both axes (layout uses reversed mode numbering)", construct=src(fl[0]) if fl else "")
     mode_defs = [a for a in walk_no_nested(mp.node) if isinstance(a, ast.Assign) and src(a.targets[0]) == "mode"]
-    res.add(bool(mode_defs) and src(mode_defs[0].value).replace(" ", "") == "n_modes-j-2", "A-mode-flip-consistent", "Reck.map:mode", mp.site(), mp.qualname, "unit cell j acts on modes (n-j-2, n-j-1)", "unit-cell mode index changed", construct=src(mode_defs[0]) if mode_defs else "")
+    res.frozen(bool(mode_defs) and src(mode_defs[0].value).replace(" ", "") == "n_modes-j-2", "A-mode-flip-consistent", "Reck.map:mode", mp.site(), mp.qualname, "unit cell j acts on modes (n-j-2, n-j-1)", "unit-cell mode index changed", construct=src(mode_defs[0]) if mode_defs else "")
     endp = [c for c in pscalls if "end_phases" in src(c)]
-    res.add(bool(endp) and src(endp[0].args[0]).replace(" ", "") == "n_modes-i-1" and src(endp[0].args[1]) == "end_phases[i]", "A-mode-flip-consistent", "Reck.map:end", mp.site(), mp.qualname, "residual phase i goes to mode n-i-1", "residual phases are applied to the wrong modes", construct=src(endp[0]) if endp else "")
+    res.frozen(bool(endp) and src(endp[0].args[0]).replace(" ", "") == "n_modes-i-1" and src(endp[0].args[1]) == "end_phases[i]", "A-mode-flip-consistent", "Reck.map:end", mp.site(), mp.qualname, "residual phase i goes to mode n-i-1", "residual phases are applied to the wrong modes", construct=src(endp[0]) if endp else "")
     return res
